@@ -33,7 +33,8 @@ from .symex import Ctx, SymBool, SymInt, _z, _zb
 _real_time_ms = cdmod.time_ms
 
 # content sources: C(source id, index) -> byte value (0..255); source id 0 is the genuine file
-C = z3.Function("C", z3.IntSort(), z3.IntSort(), z3.IntSort())
+C = z3.Function("C", z3.IntSort(), z3.IntSort(), z3.BitVecSort(8))
+ZERO8 = z3.BitVecVal(0, 8)
 # Hs(checksum type, n) = checksum token of the first n bytes of the genuine file
 Hs = z3.Function("Hs", z3.IntSort(), z3.IntSort(), z3.IntSort())
 
@@ -402,7 +403,7 @@ class MemFs(VirtualFilestore):
     def byte_term(self, p, x, upto=None):
         """z3 Int term: value of byte x of file p (0 for holes); only meaningful if x < end"""
         f = self.files[_pkey(p)]
-        val = z3.IntVal(0)
+        val = ZERO8
         for o, d in f.log[:upto]:
             oo, n = _z(o), _z(sym_len(d))
             inside = z3.And(oo <= x, x < oo + n)
@@ -595,11 +596,14 @@ class MemFs(VirtualFilestore):
         differs = z3.And(0 <= i, i < n, z3.Or(i >= end, self.byte_term(k, i) != C(0, i)))
         cons = [z3.Or(differs, h == Hs(ct, n))]
         if self.w.injective and self.w.witness is not None:
-            x = _z(self.w.witness)
-            okx = z3.Implies(z3.And(0 <= x, x < n),
-                             z3.And(x < end, self.byte_term(k, x) == C(0, x)))
+            # "no genuine collision", instantiated at the witness and at every point where a
+            # difference can become visible: offset 0, every write end, every corruption index
+            pts = [_z(self.w.witness), z3.IntVal(0)] + [_z(o) + _z(sym_len(d)) for o, d in f.log]
+            pts += [_z(j) for j in self.w.corrupt_points]
+            oks = [z3.Implies(z3.And(0 <= p, p < n), z3.And(p < end, self.byte_term(k, p) == C(0, p)))
+                   for p in pts]
             for m in self.w.hs_claims:
-                cons.append(z3.Implies(h == Hs(ct, m), z3.And(n == m, end >= n, okx)))
+                cons.append(z3.Implies(h == Hs(ct, m), z3.And(n == m, end >= n, *oks)))
         self.cks_calls.append({"h": h, "n": n, "upto": upto, "path": k})
         ctx.assume(*cons)
         return SymChecksum(h)
@@ -756,6 +760,10 @@ class World:
         self.nbad = 0
         self.timer = TimerProv(ctx.mode)
         self.wire_anomalies = []
+        self.corrupt_points = []
+        self.bad_payloads = []
+        if self.sym:
+            ctx.model_hooks.append(self._model_hook)
 
     def fs(self, name):
         f = MemFs(self, name)
@@ -766,27 +774,61 @@ class World:
     def src_bytes(self, start, n):
         if self._src is None:
             rnd = random.Random(0xC0FFEE + self.ctx.seed)
-            self._src = bytes(rnd.randrange(1, 256) for _ in range(4096))
+            rest = bytes(rnd.randrange(1, 256) for _ in range(4096))
+            given = bytes.fromhex(self.ctx.model_in.get("_src", "")) if not self.sym else b""
+            self._src = given + rest[len(given):]
         if start + n > len(self._src):
             raise symex.HarnessError("concrete source content longer than 4096 bytes")
         return self._src[start:start + n]
 
-    def payload(self, start, n, corrupt=False):
-        """payload carrying bytes [start, start+n) of the genuine file, or a corrupted copy"""
+    def payload(self, start, n, corrupt=False, jname=None):
+        """payload carrying bytes [start, start+n) of the genuine file, or a corrupted copy.
+        `corrupt` may be symbolic; the index of a differing byte is the harness variable jname"""
         if self.sym:
-            if not corrupt:
+            if corrupt is False:
                 return SymBytes(0, start, n)
             self.nbad += 1
             k = self.nbad
-            j = z3.Int(self.ctx.fresh("j"))
-            self.ctx.assume(z3.And(_z(start) <= j, j < _z(start) + _z(n), C(k, j) != C(0, j)))
-            return SymBytes(k, start, n)
+            j = self.ctx.int(jname or f"j{k}")
+            self.corrupt_points.append(j)
+            cb = _zb(corrupt)
+            jj = _z(j)
+            self.ctx.assume(z3.Implies(cb, z3.And(_z(start) <= jj, jj < _z(start) + _z(n),
+                                                  C(k, jj) != C(0, jj))),
+                            z3.Implies(z3.Not(cb), jj == -1))
+            self.bad_payloads.append((k, start, n))
+            return SymBytes(SymInt(z3.If(cb, z3.IntVal(k), z3.IntVal(0))), start, n)
         b = bytearray(self.src_bytes(start, n))
-        if corrupt:
-            if n < 1:
-                raise symex.HarnessError("corrupt payload of length 0")
-            b[0] ^= 0xFF
+        if corrupt is not False:
+            self.nbad += 1
+            j = self.ctx.int(jname or f"j{self.nbad}")
+            if corrupt:
+                if not (start <= j < start + n):
+                    raise symex.HarnessError("corruption index outside the payload")
+                stored = (self.ctx.model_in.get("_bad") or {}).get(str(self.nbad))
+                if stored is not None and len(stored) == 2 * n:
+                    b = bytearray(bytes.fromhex(stored))
+                else:
+                    b[j - start] ^= 0xFF
         return bytes(b)
+
+    def _model_hook(self, ev):
+        """bytes of the genuine file and of corrupted payloads as the solver chose them"""
+        out = {}
+        size = None
+        for name in ("S",):
+            if name in self.ctx.vars:
+                size = ev(self.ctx.vars[name]).as_long()
+        if size is not None and 0 <= size <= 2048:
+            out["_src"] = bytes(ev(C(0, i)).as_long() for i in range(size)).hex()
+        bad = {}
+        for (k, start, n) in self.bad_payloads:
+            st, nn = ev(_z(start)).as_long(), ev(_z(n)).as_long()
+            if 0 <= nn <= 2048:
+                bad[str(k)] = bytes(ev(C(k, st + i)).as_long() for i in range(nn)).hex()
+        if bad:
+            out["_bad"] = bad
+        return out
 
     def checksum(self, ctype, n):
         """the checksum a genuine sender computes over the first n bytes"""
